@@ -153,8 +153,8 @@ def minIntBookkeeping : List String := [
   "PrimitiveTypeFromJSONSchemaType: *exclusiveMinimum = nil",
   "PrimitiveTypeFromJSONSchemaType: *maximum = nil",
   "PrimitiveTypeFromJSONSchemaType: *minimum = nil",
-  "getMinIntType: v := *nMax - 1.0",
-  "getMinIntType: v := *nMin + 1.0"
+  "getMinIntType: v = math.Ceil(*nMax) - 1.0",
+  "getMinIntType: v = math.Floor(*nMin) + 1.0"
 ]
 
 def nbComparisons : List String := [
